@@ -80,3 +80,34 @@ Qed.
 Example C07_empty_range_example :
   find_module unit [mkmod 16 16 16 0 tt] 16 = Ok None.
 Proof. reflexivity. Qed.
+
+(* at the level of the unwinder (history semantics of Unwinder.v: several unwinders, one global identity counter):
+   removing a start that is not registered leaves the whole world as it was - module list, module-set identity
+   (so every cached rule stays valid), every other unwinder and every cache - and a clone evolves independently *)
+Section C07_world.
+Variables rule regs mdata : Type.
+Variable exec : rule -> bool -> regs -> mem -> res (option N) * regs.
+Variable fallback : rule.
+Variable cb : module mdata -> bool -> N -> regs -> mem -> cb_result rule regs * eff.
+Notation run_op := (run_op rule regs mdata exec fallback cb).
+
+Theorem C07_remove_unknown_changes_nothing : forall (w : world rule mdata) u uw s,
+  unws _ _ w u = Some uw -> mods_remove mdata (mods _ uw) s = None ->
+  run_op w (ORemove _ _ u s) = (w, ObsGen _ (gen _ uw)).
+Proof. intros w u uw s H1 H2. cbn [Unwinder.run_op]. rewrite H1, H2. reflexivity. Qed.
+
+Theorem C07_clone_is_independent : forall (w : world rule mdata) u v uw,
+  u <> v -> unws _ _ w u = Some uw ->
+  let w1 := fst (run_op w (OClone _ _ u v)) in
+  unws _ _ w1 v = Some uw /\
+  forall md, unws _ _ (fst (run_op w1 (OAdd _ _ v md))) u = Some uw.
+Proof.
+  intros w u v uw Hne H1. cbn [Unwinder.run_op]. rewrite H1. cbn [fst unws].
+  split.
+  - unfold upd. rewrite N.eqb_refl. reflexivity.
+  - intros md. unfold upd at 1. rewrite N.eqb_refl. cbn [Unwinder.draw]. cbn [fst unws next_gen caches].
+    unfold upd. destruct (N.eqb u v) eqn:E; [apply N.eqb_eq in E; contradiction|]. exact H1.
+Qed.
+End C07_world.
+Print Assumptions C07_remove_unknown_changes_nothing.
+Print Assumptions C07_clone_is_independent.
